@@ -8,8 +8,10 @@ From PV Require Import Run.R09.
 From PV Require Import Run.R10.
 From PV Require Import Run.R11.
 From PV Require Import Run.R12.
+From PV Require Import Run.R13.
 From PV Require Import Run.R16.
 From PV Require Import Run.R17.
+From PV Require Import Run.R18.
 Import ListNotations.
 Local Open Scope N_scope.
 
@@ -23,8 +25,10 @@ Definition dispatch (st : rstate) (op : N) (arg : value) : option (rstate * valu
   | 10 => run10 st op arg
   | 11 => run11 st op arg
   | 12 => run12 st op arg
+  | 13 => run13 st op arg
   | 16 => run16 st op arg
   | 17 => run17 st op arg
+  | 18 => run18 st op arg
   | _ => None
   end.
 
